@@ -59,6 +59,10 @@ def clone_fresh(it: Interp, t: ModObj) -> ModObj:
     for k in ("u", "v"):
         c.attrs["_buffers"].pop(k, None)
         c.attrs["_non_persistent_buffers_set"].discard(k)
+    # parameters predicted by a callable are cached in the buffer 'p': the twin starts from an uninitialised cache
+    pb = c.attrs["_buffers"].get("p")
+    if isinstance(pb, STensor):
+        c.attrs["_buffers"]["p"] = STensor.symbols("uninitialised_p", list(pb.shape))
     return c
 
 
@@ -314,6 +318,10 @@ def _regrid_dense(ctx: Ctx) -> None:
                 calls = list(symt.GRID_SAMPLE_CALLS)
                 if it.method(t, "grid") is not g2:
                     return False, "grid not replaced"
+                if "exp" in t.attrs.get("_modules", {}) or hasattr(t, "attrs") and "StationaryVelocity" in cls:
+                    ex = it.getattr(t, "exp")
+                    if bool(it.getattr(ex, "align_corners")) != bool(ac_to):
+                        return False, f"after grid_() the exponential map still uses align_corners={it.getattr(ex, 'align_corners')}"
                 if not calls:
                     return False, "parameters were not resampled onto the new grid"
                 # the resampled field (opaque values) must be rescaled from the old to the new normalised units:
